@@ -167,7 +167,9 @@ class FlowCx:
                 out.add("agg:%s::%s" % (rv[2].split("::")[-1], rv[3]))
             if rv[1] == "closure" and rv[2] in self.P.fns and depth > 1:
                 out.add("closure:" + short_id(rv[2]))
-                out |= self.sub(self.P.fns[rv[2]]).tags(["c", [0]], depth - 2)
+                for x in self.sub(self.P.fns[rv[2]]).tags(["c", [0]], depth - 2):
+                    # parameters of the closure are not parameters of this function
+                    out.add("c" + x if x.startswith("param:") else x)
             for a in rv[4]:
                 self._tags_op(a, depth - 1, out, seen)
         elif k == "bin":
